@@ -334,7 +334,41 @@ def door_json_nil(name, fields):
         os.unlink(p)
 
 
-DOORS = {"strdef": door_strdef, "clone": door_clone, "stream-nil": door_stream_nil, "json-nil": door_json_nil, "ctor": door_ctor, "stream": door_stream, "json": door_json, "avro-doc": door_avro_doc, "avro-names": door_avro_names}
+GROUP_ACCEPTED = "group-accepted"  # the grouped record exists under the given name (no flat descriptor was asked for)
+
+
+def door_group_ctor(name, fields):
+    """The name of a grouped record (its flat view is a record type of that name)."""
+    from flow.record import GroupedRecord, RecordDescriptor
+
+    from flow.record import RecordStreamWriter
+
+    member = RecordDescriptor("ok/member", [tuple(f) for f in fields])()
+    g = GroupedRecord(name, [member])
+    repr(g)
+    w = RecordStreamWriter(io.BytesIO())  # the packers look at the members only
+    w.write(g)
+    w.fp = None
+    return GROUP_ACCEPTED
+
+
+def door_group_stream(name, fields):
+    """A GROUPED frame carrying the name, after a valid member definition."""
+    from flow.record import RecordStreamReader
+
+    hdr = refcodec.frame(refcodec.mp_encode(refcodec.Bin(refcodec.MAGIC)))
+    mf = [list(f) for f in fields]
+    desc = refcodec.frame(refcodec.mp_encode(refcodec.Ext(14, refcodec.mp_encode([2, ["ok/member", mf]]))))
+    ident = ["ok/member", refcodec.desc_hash("ok/member", [tuple(f) for f in fields])]
+    grp = refcodec.frame(refcodec.mp_encode(refcodec.Ext(14, refcodec.mp_encode([0x12, [name, [[ident, [None] * len(mf) + [None, None, None, 1]]]]]))))
+    got = list(RecordStreamReader(io.BytesIO(hdr + desc + grp)))
+    if not got:
+        raise LookupError("grouped frame yielded nothing")
+    repr(got[0])
+    return GROUP_ACCEPTED
+
+
+DOORS = {"group-ctor": door_group_ctor, "group-stream": door_group_stream, "strdef": door_strdef, "clone": door_clone, "stream-nil": door_stream_nil, "json-nil": door_json_nil, "ctor": door_ctor, "stream": door_stream, "json": door_json, "avro-doc": door_avro_doc, "avro-names": door_avro_names}
 
 
 def check_shape(desc, name, fields, door, case, viol):
@@ -397,7 +431,7 @@ def run_case(case):
     doors = case.get("doors") or ["ctor", "stream", "json"]
     what = case["what"]
     if what in ("type-name", "field-name", "field-type"):
-        doors = list(doors) + ["strdef", "stream-nil", "json-nil"] + (["clone"] if what == "type-name" else [])
+        doors = list(doors) + ["strdef", "stream-nil", "json-nil"] + (["clone", "group-ctor", "group-stream"] if what == "type-name" and fields else [])
     PRELUDE[0] = case.get("prelude")
     for door in doors:
         clear()
@@ -435,7 +469,7 @@ def run_case(case):
             outs.append(door + ":accepted")
             if verdict is False:
                 viol.append(("C06:accepted-invalid-%s:%s:%s" % (what, door, case.get("cls", "")), case, {"name": name, "fields": [list(f) for f in fields]}))
-            elif verdict is True:
+            elif verdict is True and d != GROUP_ACCEPTED:
                 check_shape(d, name, fields, door, case, viol)
         else:
             compile_time = "syntax-error" in srcs or isinstance(err, (SyntaxError, IndentationError))
